@@ -54,12 +54,16 @@ def index_file(kind, entries, platform=0, ndats=1, junk=b"", folders=False):
     ftab = b""
     if folders and kind == 1:
         i = 0
+        recs = []
         while i < len(entries):
             j = i
             while j < len(entries) and entries[j][0][1] == entries[i][0][1]:
                 j += 1
-            ftab += struct.pack("<IIII", entries[i][0][1], 2048 + 16 * i, 16 * (j - i), 0)
+            recs.append((entries[i][0][1], 2048 + 16 * i, 16 * (j - i)))
             i = j
+        if callable(folders):
+            recs = folders(recs)       # a sloppy table: records dropped, ranges shortened (the entries themselves stay complete)
+        ftab = b"".join(struct.pack("<IIII", h_, o_, z_, 0) for h_, o_, z_ in recs)
     ih = struct.pack("<I", 1024) + _seg(1, 2048, len(body)) + b"\0" * 4 + _seg(ndats, 0, 0) + _seg(0, 0, 0) + (_seg(0, 2048 + len(body), len(ftab)) if ftab else _seg(0, 0, 0))
     body += ftab
     ih += struct.pack("<B3x", 0 if kind == 1 else 1) + b"\0" * 656 + b"\0" * 20 + b"\0" * 44
